@@ -81,6 +81,11 @@ pub enum CaseDesc {
     /// class} x {canonical, serialized, case variants, padded, prefixed spellings}. Whether a name
     /// is known is a fact about (class, name), never about the name alone or a similar name.
     NearName { base: usize, x: usize, y: usize, nested: bool },
+    /// a String value / an instance name containing one character XML 1.0 cannot carry
+    Forbidden { label: String, in_name: bool },
+    /// one instance of a database class whose name is not its class name (every class of the
+    /// database: a class may redeclare `Name` or other inherited properties)
+    OfClass { class: String },
     /// one instance: a padding string of `pad` bytes, then (in name order) the first alphabet
     /// value of type `ty` - every value type starting at every offset in windows around the
     /// block sizes readers and writers buffer by
@@ -110,6 +115,22 @@ pub fn text_cases() -> Vec<CaseDesc> {
         }
     }
     out
+}
+
+pub fn forbidden_char_cases() -> Vec<CaseDesc> {
+    let mut out = Vec::new();
+    for (l, _) in vals::xml_forbidden_chars() {
+        for in_name in [false, true] {
+            out.push(CaseDesc::Forbidden { label: l.to_owned(), in_name });
+        }
+    }
+    out
+}
+
+pub fn every_class_cases() -> Vec<CaseDesc> {
+    let mut names: Vec<String> = rbx_reflection_database::get().classes.keys().map(|k| k.to_string()).collect();
+    names.sort();
+    names.into_iter().map(|class| CaseDesc::OfClass { class }).collect()
 }
 
 pub fn position_cases(types: &[VariantType]) -> Vec<CaseDesc> {
@@ -315,6 +336,30 @@ pub fn build_plan(desc: &CaseDesc, codec: Codec) -> Plan {
                         nodes.push(PNode { class: "ZzUnknown".to_owned(), name: format!("s{}", i), parent: Some(0), props: vec![("Sh".to_owned(), PVal::Shared(format!("shared string number {}", (i * 31) % *n).into_bytes()))] });
                     }
                 }
+                "hugeblob" => {
+                    // one incompressible byte string of n bytes: a chunk whose stored form is
+                    // larger than 16 MiB whatever the compression
+                    let mut x: u64 = 0x9e37_79b9_7f4a_7c15;
+                    let bytes: Vec<u8> = (0..*n)
+                        .map(|_| {
+                            x ^= x << 13;
+                            x ^= x >> 7;
+                            x ^= x << 17;
+                            (x >> 24) as u8
+                        })
+                        .collect();
+                    nodes.push(PNode { class: "ZzUnknown".to_owned(), name: "huge".to_owned(), parent: Some(0), props: vec![("Blob".to_owned(), PVal::V(Variant::BinaryString(BinaryString::from(bytes))))] });
+                }
+                "hugetext" => {
+                    // text nodes of n bytes: a plain string, a Content URI and (base64) a SharedString
+                    let text: String = (0..*n).map(|i| (b'a' + (i % 23) as u8) as char).collect();
+                    nodes.push(PNode {
+                        class: "ZzUnknown".to_owned(),
+                        name: "huge".to_owned(),
+                        parent: Some(0),
+                        props: vec![("Text".to_owned(), PVal::V(Variant::String(text.clone()))), ("Sh".to_owned(), PVal::Shared(text.into_bytes()))],
+                    });
+                }
                 "instances" => {
                     // top -> 256 groups -> leaves
                     let groups = 256usize;
@@ -385,6 +430,26 @@ pub fn build_plan(desc: &CaseDesc, codec: Codec) -> Plan {
                 roots: RootSel::Nodes(if *nested { vec![0] } else { vec![0, 1] }),
             }
         }
+        CaseDesc::Forbidden { label, in_name } => {
+            let ch = vals::xml_forbidden_chars().into_iter().find(|(l, _)| l == label).expect("forbidden label").1;
+            let text = format!("a{}b", ch);
+            Plan {
+                nodes: vec![PNode {
+                    class: "ZzUnknown".to_owned(),
+                    name: if *in_name { text.clone() } else { "plain".to_owned() },
+                    parent: None,
+                    props: if *in_name { vec![] } else { vec![("Str".to_owned(), PVal::V(Variant::String(text)))] },
+                }],
+                roots: RootSel::Nodes(vec![0]),
+            }
+        }
+        CaseDesc::OfClass { class } => Plan {
+            nodes: vec![
+                PNode { class: class.clone(), name: format!(" an instance of {} ", class), parent: None, props: vec![] },
+                PNode { class: class.clone(), name: String::new(), parent: Some(0), props: vec![] },
+            ],
+            roots: RootSel::Nodes(vec![0]),
+        },
         CaseDesc::Position { ty, pad } => {
             let vt = vt_by_name(ty);
             let alpha = alphabet(vt, codec, false);
@@ -1145,6 +1210,8 @@ pub fn label_of(desc: &CaseDesc) -> String {
         }
         CaseDesc::Text { frags } => format!("text|{:?}", frags),
         CaseDesc::Position { ty, pad } => format!("position|{}|{}", ty, pad),
+        CaseDesc::OfClass { class } => format!("of-class|{}", class),
+        CaseDesc::Forbidden { label, in_name } => format!("xml-forbidden-char|{}|{}", label, if *in_name { "name" } else { "value" }),
     }
 }
 
@@ -1172,6 +1239,8 @@ pub fn class_of(desc: &CaseDesc) -> String {
         CaseDesc::NearName { base, .. } => format!("near-name:{}", near_sites(*base)[0].1),
         CaseDesc::Text { .. } => "text".to_owned(),
         CaseDesc::Position { ty, .. } => format!("position:{}", ty),
+        CaseDesc::OfClass { .. } => "of-class".to_owned(),
+        CaseDesc::Forbidden { in_name, .. } => format!("xml-forbidden-char:{}", if *in_name { "name" } else { "value" }),
     }
 }
 
